@@ -3,6 +3,7 @@ package main
 import (
 	"fmt"
 	"go/ast"
+	"go/format"
 	"go/token"
 	"reflect"
 	"strconv"
@@ -318,7 +319,34 @@ func (c *prCtx) cond(x ast.Expr) (code string, guardExpr, guardVar string) {
 				return f.v, "", ""
 			}
 		}
+	case *ast.CallExpr:
+		// isDecimalIntegerLiteral(recv.F) for an expression field F: the hand-written
+		// PrinterLib.is_decimal_int (the Go helper must exist and read as expected)
+		if id, ok := t.Fun.(*ast.Ident); ok && id.Name == "isDecimalIntegerLiteral" && len(t.Args) == 1 {
+			checkIsDecimalIntegerLiteral(c.p)
+			ch := selChain(t.Args[0])
+			if len(ch) == 2 && ch[0] == c.recv {
+				if f := c.field(ch[1], x); f.kind == "expr" {
+					return "is_decimal_int " + f.v, "", ""
+				}
+			}
+			c.fail(x, "isDecimalIntegerLiteral of something that is not an expression field")
+		}
 	case *ast.BinaryExpr:
+		if t.Op == token.LAND || t.Op == token.LOR {
+			// Go evaluates the right operand only when needed; both sides are pure and total
+			// here (no precedence guard, hence no nil dereference), so andb / orb is exact
+			l, lg, _ := c.cond(t.X)
+			r, rg, _ := c.cond(t.Y)
+			if lg != "" || rg != "" {
+				c.fail(x, "&& / || over a condition that reads the precedence of a child")
+			}
+			op := "andb"
+			if t.Op == token.LOR {
+				op = "orb"
+			}
+			return fmt.Sprintf("%s (%s) (%s)", op, l, r), "", ""
+		}
 		if t.Op == token.NEQ || t.Op == token.EQL {
 			if id, ok := t.Y.(*ast.Ident); ok && id.Name == "nil" {
 				ch := selChain(t.X)
@@ -356,6 +384,39 @@ func (c *prCtx) cond(x ast.Expr) (code string, guardExpr, guardVar string) {
 	}
 	c.fail(x, "unsupported condition")
 	return "", "", ""
+}
+
+// checkIsDecimalIntegerLiteral: PrinterLib.is_decimal_int is hand-written Gallina; the Go
+// helper it stands for must exist in package ast and read exactly as the text below
+// (modulo layout and comments), otherwise the translation is refused.
+const isDecimalIntegerLiteralWant = `func isDecimalIntegerLiteral(e Expression) bool {
+	il, ok := e.(*IntegerLiteral)
+	if !ok {
+		return false
+	}
+	for i := 0; i < len(il.Token.Literal); i++ {
+		if c := il.Token.Literal[i]; c < '0' || c > '9' {
+			return false
+		}
+	}
+	return true
+}`
+
+func checkIsDecimalIntegerLiteral(p *pkgInfo) {
+	fd := findFunc(p, "", "isDecimalIntegerLiteral")
+	if fd == nil || fd.Body == nil {
+		die("ast.isDecimalIntegerLiteral: function not found (PrinterLib.is_decimal_int models it)")
+	}
+	cp := *fd
+	cp.Doc = nil
+	var b strings.Builder
+	if err := format.Node(&b, p.fset, &cp); err != nil {
+		die("%s: cannot render isDecimalIntegerLiteral: %v", p.pos(fd), err)
+	}
+	norm := func(s string) string { return strings.Join(strings.Fields(s), " ") }
+	if norm(b.String()) != norm(isDecimalIntegerLiteralWant) {
+		die("%s: isDecimalIntegerLiteral changed: PrinterLib.is_decimal_int models\n%s\nbut the source reads\n%s", p.pos(fd), isDecimalIntegerLiteralWant, b.String())
+	}
 }
 
 func guardWrap(guardExpr, guardVar, body string) string {
